@@ -418,3 +418,71 @@ def _text_vars(t: str) -> set[str]:
         except SyntaxError:
             _tv_cache[t] = set()
     return _tv_cache[t]
+
+
+# (module, function, regex the guard's test must match (on ast.unparse text), description, extra check)
+REJECTIONS = [
+    ("ffcx.analysis", "_analyze_form", r"^form\.empty\(\)$", "empty forms"),
+    ("ffcx.analysis", "_analyze_form", r"^_has_custom_integrals\(form\)$", "custom integrals"),
+    ("ffcx.analysis", "_analyze_form", r"^any\(\(?e\.discontinuous for e in (\w+)\)?\)$", "discontinuous elements in vertex integrals"),
+    ("ffcx.analysis", "analyze_ufl_objects", None, "unrecognised UFL objects"),
+    ("ffcx.ir.representation", "_compute_form_ir", r"^min\(subdomain_ids\) < -1$", "negative subdomain ids"),
+    ("ffcx.ir.representation", "_compute_expression_ir", r"^len\(argument_elements\) > 1$", "expressions with several arguments"),
+    ("ffcx.codegeneration.expression_generator", "ExpressionGenerator.__init__", r"^len\(list\(ir\.expression\.integrand\.keys\(\)\)\) != 1$", "several point sets"),
+    ("ffcx.codegeneration.expression_generator", "ExpressionGenerator.generate_block_parts", r"^'zeros' in ttypes$", "zero tables in blocks"),
+    ("ffcx.codegeneration.integral_generator", "IntegralGenerator.generate_block_parts", r"^'zeros' in ttypes$", "zero tables in blocks"),
+    ("ffcx.codegeneration.integral_generator", "IntegralGenerator.generate_block_parts", r"^len\(blockdata\.factor_indices_comp_indices\) > 1$", "non-scalar integrands"),
+    ("ffcx.ir.elementtables", "build_optimized_tables", r"^codim > 2$", "codimension > 2"),
+    ("ffcx.ir.elementtables", "build_optimized_tables", r"^use_sum_factorization and \(?not quadrature_rule\.has_tensor_factors\)?$", "sum factorisation without tensor rule"),
+    ("ffcx.ir.elementtables", "get_ffcx_table_values", None, "codimension > 2 in tabulation"),
+    ("ffcx.ir.integral", "analyse_dependencies", r"^not is_cellwise_constant\(v\['expression'\]\)$", "varying terminal without table"),
+    ("ffcx.codegeneration.lnodes", "merge_dtypes", r"^DataType\.NONE in dtypes$", "untyped operands in arithmetic"),
+    ("ffcx.codegeneration.lnodes", "ArrayAccess.__init__", None, "non-symbol array bases"),
+]
+
+
+@rule(
+    "REJECTIONS",
+    ["C19"],
+    "the explicit rejections of unsupported input are present, guard the documented condition and end in "
+    "`raise`; the vertex-integral guard inspects every element of the integral (arguments and "
+    "coefficients), not only the argument spaces",
+    min_instances=14,
+)
+def rejections(repo, res):
+    import re as _re
+
+    from ..flow import Slicer
+
+    for modname, q, pat, what in REJECTIONS:
+        m = repo.mod(modname)
+        f = m.func(q)
+        res.functions.add(f.key)
+        key = f"{f.key}:rejects:{what}"
+        res.ob(key)
+        if pat is None:
+            if not any(isinstance(n, ast.Raise) for n in walk_no_nested(f.node)):
+                res.fail(key, f"{f.key} no longer rejects {what} with an exception", m.line(f.node))
+            continue
+        hit = None
+        for n in walk_no_nested(f.node):
+            if isinstance(n, ast.If) and _re.match(pat, ast.unparse(n.test)):
+                hit = n
+        if hit is None:
+            res.fail(key, f"{f.key}: the guard rejecting {what} (`{pat}`) is gone or tests something else", m.line(f.node))
+            continue
+        if not (hit.body and isinstance(hit.body[-1], ast.Raise)):
+            res.fail(key, f"{f.key}: {what} are detected but not rejected with an exception", m.line(hit))
+        if what.startswith("discontinuous"):
+            var = _re.match(pat, ast.unparse(hit.test)).group(1)
+            sl = Slicer(f.node)
+            t = sl.text(ast.Name(id=var, ctx=ast.Load()))
+            k2 = f"{f.key}:vertex-guard-scope"
+            res.ob(k2)
+            if not _re.search(r"extract_elements\(integral(\.integrand\(\))?\)", t):
+                res.fail(k2, f"the vertex-integral guard inspects `{t[:80]}` instead of every element of the integral: a discontinuous "
+                         "coefficient in a dP integral is compiled instead of rejected", m.line(hit))
+            # the guard must sit under the vertex test
+            outer = [n for n in walk_no_nested(f.node) if isinstance(n, ast.If) and any(x is hit for x in ast.walk(n)) and n is not hit]
+            if not any("integral_type() == 'vertex'" in ast.unparse(o.test) for o in outer):
+                res.fail(k2, "the discontinuity guard is no longer tied to vertex integrals", m.line(hit))
